@@ -121,11 +121,15 @@ func (f *Replace) Call(s *slip.Scope, args slip.List, depth int) (result slip.Ob
 	}
 	result = args[0]
 	seq2 := seqToList(s, args[1], "sequence-2", start2, end2, depth)
+	if 0 < len(seq2) {
+		// The elements of sequence-2 can be the storage of sequence-1 (the
+		// same object, overlapping regions), copy them before any is replaced.
+		seq2 = append(slip.List{}, seq2...)
+	}
 	switch seq1 := args[0].(type) {
 	case nil:
 	case slip.List:
 		end1 = f.checkStartEnd(s, start1, end1, len(seq1), depth)
-		// TBD check seq1 == seq2
 		for i, v := range seq2 {
 			if end1 <= start1+i {
 				break
